@@ -11,9 +11,9 @@
    _find_next (build/proposed_fixes/C16_find_next_offset.diff); [false] = the test "i < size". *)
 From Coq Require Import ZArith List.
 Import ListNotations.
-Require Import SC3.model.Alloc SC3.model.AllocServer SC3.model.AllocReserve SC3.model.NodeId SC3.model.NodeIdGen SC3.lib.PyNum SC3.gen.Gen_builtins.
+Require Import SC3.model.Alloc SC3.model.AllocServer SC3.model.AllocReserve SC3.model.ServerAlloc SC3.model.NodeId SC3.model.NodeIdGen SC3.lib.PyNum SC3.gen.Gen_builtins.
 Require Import SC3.proofs.C16_base SC3.proofs.C16_inv SC3.proofs.C16_alloc SC3.proofs.C16_free
-               SC3.proofs.C16_main SC3.proofs.C16_thms SC3.proofs.C16_nodeid SC3.proofs.C16_server SC3.proofs.C16_reserve.
+               SC3.proofs.C16_main SC3.proofs.C16_thms SC3.proofs.C16_nodeid SC3.proofs.C16_server SC3.proofs.C16_reserve SC3.proofs.C16_srvopts.
 Open Scope Z_scope.
 
 (* For every partition size, reserved offset, client offset, every history of alloc(n), n >= 0, and
@@ -92,6 +92,49 @@ Theorem server_live_ranges_disjoint : forall total io logins reserved h,
       is_live si a n -> is_live sj a' n' ->
       io <= a /\ a + n <= total /\ ((i = j /\ a = a' /\ n = n') \/ a + n <= a' \/ a' + n' <= a).
 Proof. intros total io logins reserved h Hl Hio Hres Hwf. exact (server_live_ranges_disjoint_proof total io logins reserved Hl Hio Hres h Hwf). Qed.
+
+(* ---- the allocators a Server builds from its OPTIONS (model/ServerAlloc.v: first_private_bus, _set_client_id,
+   _new_allocators, _new_bus_allocators, _new_buffer_allocators, _next_node_id) ------------------------------
+   [wf_opts o]: 0 < max_logins <= 32, hardware channels fit, every kind's reserved count is below its per-client share,
+   0 <= initial_node_id <= 0x03FFFFFF  (the options under which the constructors do not raise).
+   For every such o, every client id c < max_logins and every server-level history of alloc(n>=0) / free(any address) on
+   the audio, control and buffer allocators, node-id allocations, _set_client_id(ANY integer) and assignments of new
+   well-formed options: nothing raises and SrvInv holds: the current options are well-formed and the three allocators
+   satisfy AInv and are exactly the ones built for the current client id from some well-formed options (the ones in force
+   at the last accepted _set_client_id), the node allocator is regular with user = client id. *)
+Theorem server_allocators_from_options : forall o c h, wf_opts o -> 0 <= c < max_logins o -> Forall wf_sop h ->
+  exists s0 s outs, new_allocators o c = SOk s0 /\ srun s0 h = SOk (s, outs) /\ SrvInv s.
+Proof. exact srv_reachable_proof. Qed.
+
+(* whatever is live on a server lies in the client's own share of the RIGHT index space, after the RIGHT reserved count:
+   audio: [io + per*c + reserved_audio_buses, io + per*(c+1)) inside [first_private_bus, audio_buses), control and buffers
+   likewise with their own options -- no hardware channel, no reserved index, no index of another client *)
+Theorem server_live_range_in_own_share : forall s, SrvInv s ->
+  exists o0, wf_opts o0 /\ 0 <= cid s < max_logins o0 /\ built o0 (cid s) s /\
+    forall k a n, is_live (get_alloc s k) a n ->
+      fst (space o0 k) <= per_client o0 k * cid s + fst (space o0 k) /\
+      per_client o0 k * cid s + fst (space o0 k) + reserved_of o0 k <= a /\
+      a + n <= per_client o0 k * cid s + fst (space o0 k) + per_client o0 k /\
+      per_client o0 k * cid s + fst (space o0 k) + per_client o0 k <= snd (space o0 k) /\ 0 < n.
+Proof. exact srv_live_in_own_share_proof. Qed.
+
+(* two servers (clients) whose allocators were built from the same options for different client ids never hold a common index *)
+Theorem server_clients_of_same_options_disjoint : forall o0 s1 s2 k a1 n1 a2 n2, wf_opts o0 ->
+  0 <= cid s1 < max_logins o0 -> 0 <= cid s2 < max_logins o0 -> cid s1 <> cid s2 ->
+  built o0 (cid s1) s1 -> built o0 (cid s2) s2 ->
+  is_live (get_alloc s1 k) a1 n1 -> is_live (get_alloc s2 k) a2 n2 ->
+  a1 + n1 <= a2 \/ a2 + n2 <= a1.
+Proof. exact built_clients_disjoint. Qed.
+
+(* _set_client_id: an id outside 0 .. options.max_logins-1 changes nothing; an id inside rebuilds all allocators, empty,
+   from the CURRENT options *)
+Theorem set_client_id_refuses_foreign_ids : forall s v, v < 0 \/ max_logins (so s) <= v -> set_client_id s v = SOk s.
+Proof. exact set_client_id_refuses_proof. Qed.
+
+Theorem set_client_id_rebuilds_from_current_options : forall s v, wf_opts (so s) -> 0 <= v < max_logins (so s) ->
+  exists s', set_client_id s v = SOk s' /\ so s' = so s /\ built (so s) v s' /\
+    forall k x n, ~ is_live (get_alloc s' k) x n.
+Proof. exact set_client_id_rebuilds_proof. Qed.
 
 (* public reserve() (not called anywhere in sc3): on a reachable state it can raise after having released a LIVE
    block, which the next alloc hands out again; and it cannot reserve a free address of a fresh allocator *)
@@ -194,6 +237,25 @@ Example server_example :
   | Ok (_, outs) => outs | Raise _ => [] end = [Some 35; Some 5; None; None; None; Some 35].
 Proof. vm_compute. reflexivity. Qed.
 
+Definition example_opts := mkO 68 40 32 2 2 1 0 2 4 1000.
+Example server_options_example :
+  alloc_args example_opts KAudio 2 = (16, 1, 36) /\ alloc_args example_opts KControl 3 = (10, 0, 30) /\
+  alloc_args example_opts KBuffer 1 = (8, 2, 8) /\
+  match new_allocators example_opts 2 with
+  | SOk s0 => match srun s0 [SAlloc KAudio 3 0; SAlloc KBuffer 1 0; SNode; SSetClient 7; SFree KAudio 37; SSetClient 1; SAlloc KAudio 3 0] with
+              | SOk (s, outs) => (outs, cid s)
+              | SRaise _ => ([], -1) end
+  | SRaise _ => ([], -2) end = ([Some 37; Some 18; Some 134218728; None; None; None; Some 21], 1).
+Proof. vm_compute. repeat split; reflexivity. Qed.
+
+Example wf_example_opts : wf_opts example_opts.
+Proof.
+  assert (H : forall k, 0 <= reserved_of example_opts k < per_client example_opts k)
+    by (intros k; destruct k; vm_compute; split; easy).
+  unfold wf_opts. split; [vm_compute; split; easy|]. split; [vm_compute; split; easy|].
+  split; [vm_compute; easy|]. split; [vm_compute; easy|]. split; [exact H|]. vm_compute; split; easy.
+Qed.
+
 Example nodeid_regenerated_wrap_example :
   match ninit 3 1000 with
   | Some s => option_map snd (nalloc_py_many (mkN (user s) (init_temp s) (temp_max - 1) (mask s)) 4)
@@ -226,3 +288,5 @@ Print Assumptions free_then_available_again.
 Print Assumptions nodeid_window_distinct.
 Print Assumptions nodeid_window_distinct_regenerated.
 Print Assumptions server_live_ranges_disjoint.
+Print Assumptions server_allocators_from_options.
+Print Assumptions server_live_range_in_own_share.
